@@ -13,6 +13,7 @@ from thrift.Thrift import TApplicationException
 from scales.constants import SinkProperties
 from scales.core import ScalesUriParser
 from scales.dispatch import MessageDispatcher, ScalesError
+from scales.pool.watermark import WatermarkPoolSink
 from scales.thrift.sink import SocketTransportSink, ThriftSerializerSink
 
 from test.scales.thrift.gen_py.hello import Hello
@@ -24,7 +25,7 @@ RULE = ('Hypothesis-generated sequences of 1-5 calls on the repository\'s genera
         'double}), risky(string) throws (E1,E2), flag(bool), blob(binary), scale(double), names(i32)->list<string>) with '
         'Hypothesis values (text incl. non-ASCII/empty, full integer ranges, finite doubles), positional or keyword '
         'arguments, planned outcome value / declared exception / application exception, through MessageDispatcher -> '
-        'ThriftSerializerSink -> thrift SocketTransportSink on the simulated socket. The peer decodes with the Thrift '
+        'ThriftSerializerSink -> thrift SocketTransportSink on the simulated socket (calls one after the other, or all at once from separate greenlets through a one-connection WatermarkPoolSink; send() accepting at most 1-4096 bytes per call). The peer decodes with the Thrift '
         'library\'s pure-Python TBinaryProtocol and a processor; each sequence is run under two read chunkings (whole '
         'frames and a drawn one: 1-byte reads, drawn sizes, a split inside the length prefix) and the outcomes compared. '
         'Non-trivial = non-ASCII or empty text, a struct argument, an exception or void outcome, or a reply split into >= '
@@ -86,11 +87,16 @@ def strategy(tier):
                                       'outcome': st.sampled_from(['value', 'value', 'appexc']), 'ret': TEXT, 'kw': st.booleans()})
   chunks = st.one_of(st.just('bytes'), st.just('split_prefix'),
                      st.lists(st.integers(1, 9), min_size=1, max_size=6))
+  env = {'chunks': chunks,
+         # all calls issued at once from separate greenlets through a one-connection pool (they wait, serialized, for the connection)
+         'concurrent': st.sampled_from([False, False, True]),
+         # most bytes a single send() accepts
+         'send_max': st.sampled_from([None, None, 1, 7, 64, 4096])}
   return st.one_of(
-      st.fixed_dictionaries({'svc': st.just('rich'), 'calls': st.lists(_call(), min_size=1, max_size=5), 'chunks': chunks}),
-      st.fixed_dictionaries({'svc': st.just('rich'), 'calls': st.lists(_call(), min_size=1, max_size=5), 'chunks': chunks}),
-      st.fixed_dictionaries({'svc': st.just('richchild'), 'calls': st.lists(_call(True), min_size=1, max_size=5), 'chunks': chunks}),
-      st.fixed_dictionaries({'svc': st.just('hello'), 'calls': st.lists(hello_call, min_size=1, max_size=4), 'chunks': chunks}),
+      st.fixed_dictionaries(dict(env, svc=st.just('rich'), calls=st.lists(_call(), min_size=1, max_size=5))),
+      st.fixed_dictionaries(dict(env, svc=st.just('rich'), calls=st.lists(_call(), min_size=1, max_size=5))),
+      st.fixed_dictionaries(dict(env, svc=st.just('richchild'), calls=st.lists(_call(True), min_size=1, max_size=5))),
+      st.fixed_dictionaries(dict(env, svc=st.just('hello'), calls=st.lists(hello_call, min_size=1, max_size=4))),
   )
 
 
@@ -124,6 +130,7 @@ def _run_once(plan, chunks):
   """Returns list of (kind, value) outcomes seen by the caller, plus stats."""
   net = SimNet()
   net.install()
+  net.send_max = plan.get('send_max')
   reads = {'n': 0}
   sizes = {'i': 0}
 
@@ -142,8 +149,12 @@ def _run_once(plan, chunks):
   calls = plan['calls']
   cur = {'i': 0}
 
+  answered = {'n': 0}
+
   def respond(method, args):
-    c = calls[cur['i']]
+    # the k-th request to arrive is answered with the planned outcome of the k-th call (one connection, FIFO)
+    c = calls[answered['n']]
+    answered['n'] += 1
     o = c['outcome']
     if o == 'appexc':
       raise RuntimeError('handler blew up')
@@ -165,30 +176,53 @@ def _run_once(plan, chunks):
   Server(net, ('127.0.0.1', PORT), peer)
 
   ser = ThriftSerializerSink.Builder()
-  ser.next_provider = SocketTransportSink.Builder()
+  concurrent = bool(plan.get('concurrent'))
+  if concurrent:
+    pool = WatermarkPoolSink.Builder(min_watermark=1, max_watermark=1)
+    ser.next_provider = pool
+    pool.next_provider = SocketTransportSink.Builder()
+  else:
+    ser.next_provider = SocketTransportSink.Builder()
   disp = MessageDispatcher(iface, ser, 10, {SinkProperties.Label: 'svc', SinkProperties.ServiceInterface: iface,
                                              SinkProperties.Endpoint: EP})
   disp.Open()
   advance(0.01)
   outcomes = []
+
+  def issue(c):
+    m = c['m']
+    args = [_real(m, a) for a in c['args']]
+    if c['kw']:
+      return disp.DispatchMethodCall(m, (), dict(zip(ARG_NAMES[m], args)))
+    return disp.DispatchMethodCall(m, tuple(args), {})
+
+  ars = None
+  if concurrent:
+    ars = [issue(c) for c in calls]
+    advance(0.05 * len(calls) + 0.05)
   for i, c in enumerate(calls):
     cur['i'] = i
     m = c['m']
     args = [_real(m, a) for a in c['args']]
     n_before = len(peer.requests)
     r_before = reads['n']
-    if c['kw']:
-      ar = disp.DispatchMethodCall(m, (), dict(zip(ARG_NAMES[m], args)))
+    if concurrent:
+      ar = ars[i]
     else:
-      ar = disp.DispatchMethodCall(m, tuple(args), {})
-    advance(0.05)
-    where = 'call %d %s%r [%s reads]' % (i, m, tuple(c['args']), chunks)
+      ar = issue(c)
+      advance(0.05)
+    where = 'call %d %s%r [%s reads%s]' % (i, m, tuple(c['args']), chunks, ', all calls issued at once' if concurrent else '')
     if not ar.ready():
       raise Violation(ID, 'no-completion', '%s: the call did not complete' % where)
     # what the server saw
-    if len(peer.requests) != n_before + 1:
-      raise Violation(ID, 'request-count', '%s: server decoded %d requests' % (where, len(peer.requests) - n_before))
-    rq = peer.requests[-1]
+    if concurrent:
+      if len(peer.requests) != len(calls):
+        raise Violation(ID, 'request-count', '%s: server decoded %d requests for %d calls' % (where, len(peer.requests), len(calls)))
+      rq = peer.requests[i]
+    else:
+      if len(peer.requests) != n_before + 1:
+        raise Violation(ID, 'request-count', '%s: server decoded %d requests' % (where, len(peer.requests) - n_before))
+      rq = peer.requests[-1]
     if rq.get('decode_error'):
       raise Violation(ID, 'request-undecodable', '%s: library processor could not decode the request: %s' % (where, rq['decode_error']))
     if rq['method'] != m:
@@ -248,4 +282,5 @@ def execute(plan):
   if nreads >= 3 * len(plan['calls']) + 2:
     nt.append('reply split into >=3 reads')
   return Outcome(nontrivial=sorted(set(nt)) or None,
-                 classes=['svc=' + plan['svc']] + sorted(set('m=' + c['m'] for c in plan['calls'])) + sorted(set(nt)))
+                 classes=['svc=' + plan['svc']] + (['all_calls_at_once'] if plan.get('concurrent') else []) +
+                 (['send_max=%s' % plan.get('send_max')] if plan.get('send_max') else []) + sorted(set('m=' + c['m'] for c in plan['calls'])) + sorted(set(nt)))
